@@ -12,7 +12,9 @@ package main
 //   rotate lay N t k vec | conj lay rt N t vec | rothoisted lay N t hasP ks vec -> reqs vec(s)
 //   *-reqs variants: only the request trace is compared (value depends on stale buffers)
 // Probes (predicates on the real code): galEl_add, galEl_mod_slots, modInv_spec, dlog_galEl,
-//   nttIndex_perm, keys_sufficient, sum_spec, ckks_round_margin, adv_has_no_extra.
+//   nttIndex_perm, keys_sufficient, sum_spec, ckks_round_margin, adv_has_no_extra;
+//   keylevel_{plain,hoisted,lazy,scheme,hoisted_pw2} (c11_keylevels.go: Galois keys at every (LevelQ, LevelP), base-2 variants),
+//   metadata_propagated, metadata_value (c11_meta.go: out-of-place into receivers with different metadata).
 
 import (
 	"fmt"
@@ -431,6 +433,8 @@ func genC11(c *Ctx) {
 	c11Galois(c)
 	c11Advertised(c)
 	c11Evaluators(c)
+	c11KeyLevels(c)
+	c11Meta(c)
 }
 
 func c11SpecialKs(c *Ctx, slots int, nthRoot uint64) []int {
